@@ -415,7 +415,11 @@ def _real_case(ctx, rng, k, hx_jobs, gain_jobs, jac_jobs=None):
         est1 = net.res_bus_est[["vm_pu", "va_degree"]].values.copy()
         # the model-level h(x)/Jacobian comparison needs at least one branch in the estimation ppci
         # (a net reduced to fused buses has none; it is still judged by the oracle above)
-        has_branch = len(getattr(se.solver.eppci, "branch", [])) > 0 if hasattr(se.solver, "eppci") else True
+        # (eppci is a UserDict: the branch table is an ITEM, eppci["branch"], not an attribute)
+        try:
+            has_branch = len(se.solver.eppci["branch"]) > 0
+        except Exception:
+            has_branch = False
         if not has_branch:
             ctx.count("estimation_ppci_without_branch")
         if has_branch and len(hx_jobs) < ctx.n(25, 200):
